@@ -157,6 +157,9 @@ def create_database(
     )
     file_hash_path = _get_file_hash_path(cmd.zettel_dir)
     file_to_hash = _get_file_hash_map(cmd.zettel_dir)
+    _forget_files_with_pending_updates(
+        cmd.zettel_dir, file_to_hash, zorg_pages
+    )
     _write_file_hash_to_disk(file_hash_path, file_to_hash)
     error_file_whitelist.write_text("\n".join(sorted(error_files)))
     session.commit()
@@ -180,6 +183,7 @@ def reindex_database(
     error_files = error_file_whitelist.read_text().split("\n")
 
     num_of_updates = 0
+    zorg_pages = []
     for zorg_page_name, hash_ in file_to_hash.copy().items():
         # If this file has never been indexed OR the file contents have changed
         # since the last time it was indexed.
@@ -224,6 +228,7 @@ def reindex_database(
             _check_for_modified_notes(cmd.zettel_dir, zorg_page, old_zorg_page)
             _LOGGER.debug("Adding zorg file", file=zorg_page_name)
             session.repo.add_file(zorg_page)
+            zorg_pages.append(zorg_page)
             session.commit()
 
     if not cmd.paths:
@@ -243,6 +248,9 @@ def reindex_database(
     if num_of_updates == 0:
         c.zprint("NO ZORG FILES HAVE BEEN MODIFIED")
 
+    _forget_files_with_pending_updates(
+        cmd.zettel_dir, file_to_hash, zorg_pages
+    )
     _write_file_hash_to_disk(file_hash_path, file_to_hash)
     error_file_whitelist.write_text("\n".join(sorted(error_files)))
     session.commit()
@@ -303,6 +311,21 @@ def _get_file_hash_map(
         key = c.strip_zdir(zdir, path)
         file_to_hash[key] = _hash_file(path)
     return file_to_hash
+
+
+def _forget_files_with_pending_updates(
+    zdir: Path, file_to_hash: dict[str, str], zorg_pages: Iterable[Page]
+) -> None:
+    """Removes files that are about to be rewritten from {file_to_hash}.
+
+    The index already holds the ZIDs / modify dates that the pending events
+    will write to these files, so the files are NOT up to date until that has
+    happened (see _update_zo_file()). If we die before then, the next run
+    must process them again.
+    """
+    for zorg_page in zorg_pages:
+        if zorg_page.events:
+            file_to_hash.pop(c.strip_zdir(zdir, zorg_page.path), None)
 
 
 def _get_file_hash_path(zdir: Path) -> Path:
@@ -472,6 +495,10 @@ def _update_zo_file(
 
     # Only vouch for the file we just rewrote: any other file might have been
     # edited since it was last indexed (e.g. when reindexing explicit paths).
+    # And only once every note has its ZID, since until then another update
+    # of this file is still pending.
+    if any(note.zid is None for note in walk_zorg_page(zdir, zo_path).notes):
+        return
     file_hash_path = _get_file_hash_path(zdir)
     file_to_hash: dict[str, str] = (
         json.loads(file_hash_path.read_bytes())
